@@ -272,9 +272,11 @@ def cases(draw):
     # meaning (the colour's re-expression is C14's business)
     switch_to = draw(st.sampled_from([None, None, None, 'raw', 'rgb',
                                       'logical']))
+    # ... and the time register may hold a time-of-day pattern meanwhile
+    pattern = draw(st.sampled_from([None, None, None, '12:00', '*:*5']))
     return {'mode': mode, 'regs': {k: num(v) for k, v in regs.items()},
             'kind': kind, 'with_default': with_default, 'previous': previous,
-            'switch_to': switch_to}
+            'switch_to': switch_to, 'pattern': pattern}
 
 
 def render(case):
@@ -282,6 +284,8 @@ def render(case):
     lines.append(' '.join('{} {}'.format(reg, text)
                           for reg, text in case['regs'].items()))
     kind = case['kind']
+    if case.get('pattern'):
+        lines.append('time at ' + case['pattern'])
     if case.get('switch_to'):
         lines.append('units ' + case['switch_to'])
     if kind.startswith('matrix') and case['with_default']:
@@ -439,7 +443,9 @@ def check_case(acc, case):
                 problems.append('{} {} duration {} expected {}'.format(
                     want[0], op, duration, sorted(duration_ok)))
     time_value = regs['time']
-    if time_value > 0:
+    if case.get('pattern'):
+        pass        # a time-of-day wait instead of a delay: C10 / C11
+    elif time_value > 0:
         want_delay = time_value / 1000.0 if mode == 'raw' else time_value
         n_delays = 1 + (case['kind'] == 'matrix_default') + (
             case['kind'].startswith('matrix') and case['with_default'])
@@ -448,7 +454,7 @@ def check_case(acc, case):
                 for d in delays):
             problems.append('delays {} expected {} x {}'.format(
                 [d[1] for d in delays], n_delays, want_delay))
-    elif delays:
+    elif delays and not case.get('pattern'):
         problems.append('delay {} for time {}'.format(delays, time_value))
 
     fixed_points = {0, 65535}
